@@ -183,7 +183,15 @@ impl<'a> DataParser<'a> {
             return;
         }
 
-        if self.current_element.len() > 0 {
+        // Outside of a quoted string, surrounding whitespace is insignificant, so
+        // trailing blanks (e.g. between a closing quote or a comma and the end of
+        // the items) must not be taken for one more item.
+        let has_pending_element = match self.state {
+            ParseState::Normal => !self.current_element.trim().is_empty(),
+            ParseState::InDoubleQuotedString => self.current_element.len() > 0,
+        };
+
+        if has_pending_element {
             self.push_current_element();
         } else if self.elements.len() == 0 {
             self.push_current_element();
